@@ -224,6 +224,13 @@ impl Norm {
             s.pop();
         }
     }
+    /// every variable is probed right after every loop, so that a type lost at the loop exit is seen
+    /// there first (and later mismatches of the same variable can be recognised as its consequences)
+    fn probes_after_loop(&self, out: &mut Vec<Stmt>) {
+        for v in 0..self.nvars {
+            out.push(Stmt::Probe(v));
+        }
+    }
     fn block(&mut self, b: &[Stmt]) -> Vec<Stmt> {
         self.push();
         let out = self.block_open(b);
@@ -280,6 +287,7 @@ impl Norm {
                     let body = self.block(b);
                     self.loop_depth -= 1;
                     out.push(Stmt::While(c, norm_bound(*bound), body));
+                    self.probes_after_loop(&mut out);
                 }
                 Stmt::Repeat(b, c, bound) => {
                     self.loop_depth += 1;
@@ -290,18 +298,21 @@ impl Norm {
                     self.pop();
                     self.loop_depth -= 1;
                     out.push(Stmt::Repeat(body, c, norm_bound(*bound)));
+                    self.probes_after_loop(&mut out);
                 }
                 Stmt::ForNum(k, op, b) => {
                     self.loop_depth += 1;
                     let body = self.block(b);
                     self.loop_depth -= 1;
                     out.push(Stmt::ForNum(k % FORNUM_KINDS, op % N_OPAQUE, body));
+                    self.probes_after_loop(&mut out);
                 }
                 Stmt::ForIn(k, op, b) => {
                     self.loop_depth += 1;
                     let body = self.block(b);
                     self.loop_depth -= 1;
                     out.push(Stmt::ForIn(k % FORIN_KINDS, op % N_OPAQUE, body));
+                    self.probes_after_loop(&mut out);
                 }
                 Stmt::Break => {
                     if self.loop_depth > 0 {
@@ -636,12 +647,14 @@ pub fn render(p: &Prog) -> Rendered {
 
 #[derive(Clone, Copy, Debug, PartialEq, Eq)]
 pub struct Origin {
-    /// innermost loop that lexically encloses the assignment (within the same function)
+    /// the loop (of the same function) the assignment is charged to, see `Interp::attributed_loop`;
+    /// copies made outside a loop inherit it from the copied value
     pub in_loop: Option<LoopKind>,
     /// the value comes from an assignment statement (not from a `local` declaration)
     pub reassigned: bool,
     /// the value was copied from another variable (`x = y`, `local x = y`)
     pub copied: bool,
+    pub copied_from: Option<u8>,
     /// address of the assigning statement in the normalized program (0 = initial declaration)
     pub site: usize,
 }
@@ -725,13 +738,21 @@ impl<'a> Interp<'a> {
             slot.1 = val;
         }
     }
+    /// The loop a body assignment is charged to: the innermost enclosing loop (same function) whose body
+    /// may run zero times (while / numeric for / generic for).  A `repeat` body always runs and its exit
+    /// path goes through the body's end, so it is transparent unless every enclosing loop is a `repeat`.
+    fn attributed_loop(&self) -> Option<LoopKind> {
+        self.loop_kinds.iter().rev().find(|k| **k != LoopKind::Repeat).or(self.loop_kinds.last()).copied()
+    }
     fn rhs(&mut self, r: &Rhs, reassigned: bool, site: usize) -> Val {
-        let origin = Origin { in_loop: self.loop_kinds.last().copied(), reassigned, copied: matches!(r, Rhs::Var(_)), site };
+        let here = self.attributed_loop();
+        let origin = Origin { in_loop: here, reassigned, copied: matches!(r, Rhs::Var(_)), copied_from: if let Rhs::Var(w) = r { Some(*w) } else { None }, site };
         let val = match r {
             Rhs::Lit(l) => Val { ty: l.ty(), truthy: l.truthy(), origin },
             Rhs::Var(v) => {
                 let x = self.lookup(*v);
-                Val { ty: x.ty, truthy: x.truthy, origin }
+                // a copy made after the loop of a value assigned inside it still owes its type to the loop body
+                Val { ty: x.ty, truthy: x.truthy, origin: Origin { in_loop: here.or(x.origin.in_loop), ..origin } }
             }
         };
         *self.site_types.entry(site).or_default() |= 1 << val.ty;
@@ -803,7 +824,7 @@ impl<'a> Interp<'a> {
                 Stmt::Local(v, r) => {
                     let val = match r {
                         Some(r) => self.rhs(r, false, key(s)),
-                        None => Val { ty: 0, truthy: false, origin: Origin { in_loop: self.loop_kinds.last().copied(), reassigned: false, copied: false, site: key(s) } },
+                        None => Val { ty: 0, truthy: false, origin: Origin { in_loop: self.attributed_loop(), reassigned: false, copied: false, copied_from: None, site: key(s) } },
                     };
                     self.scopes.push((*v, val));
                 }
@@ -977,7 +998,7 @@ impl<'a> Interp<'a> {
 pub fn interpret(p: &Prog, ids: &HashMap<usize, u32>, env: u8, loop_stats: &mut HashMap<usize, LoopStat>, site_types: &mut HashMap<usize, u8>) -> Run {
     let mut it = Interp { env, ids, scopes: vec![], events: vec![], steps: 0, limit: 4000, loop_kinds: vec![], frames: vec![], loop_stats, site_types };
     for (i, l) in p.inits.iter().enumerate() {
-        it.scopes.push((i as u8, Val { ty: l.ty(), truthy: l.truthy(), origin: Origin { in_loop: None, reassigned: false, copied: false, site: 0 } }));
+        it.scopes.push((i as u8, Val { ty: l.ty(), truthy: l.truthy(), origin: Origin { in_loop: None, reassigned: false, copied: false, copied_from: None, site: 0 } }));
     }
     let f = it.block_open(&p.body);
     Run { diverged: matches!(f, Flow::Abort), events: it.events }
